@@ -39,12 +39,47 @@ pub fn gen_k(seed: u64, k: usize, opts: &[String]) -> GenProg {
     gen_program(&mut rng, &cfg)
 }
 
+/// argument tuples used for the expectation files and the statistics
+pub fn arg_tuples(rng: &mut Rng, a: usize) -> Vec<Vec<i64>> {
+    let mut tuples: Vec<Vec<i64>> = vec![vec![0; a], (1..=a as i64).collect(), vec![-3; a], vec![100; a]];
+    tuples.push((0..a).map(|_| rng.i64_interesting()).collect());
+    tuples.push((0..a).map(|_| (rng.below(21) as i64) - 10).collect());
+    if a == 0 { tuples.truncate(1); }
+    tuples
+}
+
+fn x86_text(text: &str) -> Option<String> {
+    let text = text.to_string();
+    std::panic::catch_unwind(move || {
+        use printer::Print;
+        let checked = fun::parser::parse_module(&text).ok()?.check().ok()?;
+        let mut ax = core2axcut::program::shrink_prog(fun2core::program::compile_prog(checked).focus());
+        ax.linearize();
+        let code = axcut2backend::coder::compile::<axcut2x86_64::Backend, _, _, _>(ax);
+        Some(axcut2x86_64::into_routine::into_x86_64_routine(code).print_to_string(None))
+    }).ok().flatten()
+}
+
+/// `genfun <seed> <n> <outdir> [opts]`: p<k>.sc, p<k>.meta (arity, features), p<k>.expect (what the
+/// generator's own machine computes for some argument tuples); with option `asm` also p<k>.asm
 pub fn cmd_genfun(seed: u64, n: usize, outdir: &str, opts: &[String]) {
     std::fs::create_dir_all(outdir).expect("create outdir");
+    let asm = opts.iter().any(|o| o == "asm");
+    let mut arg_rng = Rng::new(seed ^ 0xA5A5);
     for k in 0..n {
         let p = gen_k(seed, k, opts);
         std::fs::write(format!("{outdir}/p{k}.sc"), &p.text).expect("write");
         std::fs::write(format!("{outdir}/p{k}.meta"), format!("main_arity {}\nfeatures {}\n", p.main_arity, p.features.join(" "))).expect("write");
+        let mut e = String::new();
+        for t in arg_tuples(&mut arg_rng, p.main_arity) {
+            let args: Vec<String> = t.iter().map(|x| x.to_string()).collect();
+            match crate::gen_fun_eval::run(&p.ast, &t, 2_000_000) {
+                crate::gen_fun_eval::Outcome::Done { stdout, code, steps } => e.push_str(&format!("args {} | code {} | steps {} | stdout {:?}\n", args.join(" "), code, steps, stdout)),
+                o => e.push_str(&format!("args {} | {:?}\n", args.join(" "), o)),
+            }
+        }
+        std::fs::write(format!("{outdir}/p{k}.expect"), e).expect("write");
+        if asm { if let Some(a) = x86_text(&p.text) { std::fs::write(format!("{outdir}/p{k}.asm"), a).expect("write"); } }
     }
     println!("wrote {n} programs to {outdir}");
 }
@@ -110,11 +145,7 @@ pub fn cmd_stats(seed: u64, n: usize, opts: &[String]) {
         // the generator's own machine: termination, step counts, unsafe division
         {
             use crate::gen_fun_eval::{run, Outcome};
-            let a = p.main_arity;
-            let mut tuples: Vec<Vec<i64>> = vec![vec![0; a], (1..=a as i64).collect(), vec![-3; a], vec![100; a]];
-            tuples.push((0..a).map(|_| arg_rng.i64_interesting()).collect());
-            tuples.push((0..a).map(|_| (arg_rng.below(21) as i64) - 10).collect());
-            if a == 0 { tuples.truncate(1); }
+            let tuples = arg_tuples(&mut arg_rng, p.main_arity);
             let mut worst = 0;
             for t in &tuples {
                 match run(&p.ast, t, max_steps) {
@@ -264,4 +295,31 @@ pub fn cmd_mutants(seed: u64, n: usize, opts: &[String]) {
     }
     println!("--- first accepted mutants ({} total)", accepted.len());
     for (k, class, text) in accepted.iter().take(show) { println!("### program {k}, class {class}\n{text}"); }
+}
+
+/// `genfun-reduce <seed> <k> <out.sc> <test command> [generator opts]`: regenerate program k of the
+/// run `<seed>` (same opts as for `genfun`), then shrink it while `<test command> <file>` exits 0.
+pub fn cmd_reduce(seed: u64, k: usize, out: &str, test_cmd: &str, opts: &[String]) {
+    let p = gen_k(seed, k, opts);
+    let tmp = format!("{out}.cand.sc");
+    let mut runs = 0usize;
+    // `args=1,2,3`: candidates must terminate normally on the generator's machine for these arguments
+    // (keeps the reducer from drifting to non-terminating or trapping programs)
+    let margs: Option<Vec<i64>> = opts.iter().find_map(|o| o.strip_prefix("args=").map(|v| v.split(',').filter(|x| !x.is_empty()).filter_map(|x| x.parse().ok()).collect()));
+    let mut test = |ast: &crate::gen_fun::Program, text: &str| -> bool {
+        if let Some(a) = &margs {
+            if !matches!(crate::gen_fun_eval::run(ast, a, 200_000), crate::gen_fun_eval::Outcome::Done { .. }) { return false; }
+        }
+        runs += 1;
+        std::fs::write(&tmp, text).expect("write candidate");
+        std::process::Command::new("sh").arg("-c").arg(format!("{test_cmd} {tmp}")).stdout(std::process::Stdio::null()).stderr(std::process::Stdio::null())
+            .status().map(|s| s.success()).unwrap_or(false)
+    };
+    if !test(&p.ast, &p.text) { eprintln!("the unreduced program is not interesting (test command fails on it)"); std::process::exit(1); }
+    let style = crate::gen_fun::PrintStyle { comments: false, variants: false, ..p.style.clone() };
+    let q = crate::gen_fun_reduce::reduce(p.ast.clone(), &style, &mut test, &mut |m| eprintln!("{m}"));
+    let text = crate::gen_fun::print_program(&q, &style);
+    std::fs::write(out, &text).expect("write");
+    std::fs::remove_file(&tmp).ok();
+    eprintln!("{runs} test runs; reduced program written to {out} ({} lines)", text.lines().count());
 }
